@@ -2,6 +2,7 @@ package main
 
 import (
 	"fmt"
+	"net"
 	"strings"
 
 	"github.com/miekg/dns"
@@ -133,7 +134,12 @@ func c09Case(c *Ctx, stream string, orig *dns.Msg, size int, plain, wire bool) {
 	if opt != nil {
 		base.Extra = []dns.RR{opt}
 	}
-	if bl := packedLen(base); bl >= 0 && bl <= S {
+	// (the length Len predicts for them counts as "fit" too: it is what Truncate itself budgets with, and Len >= Pack)
+	// and so does their compressed size measured with a record after them (a root-owned A record, 15 octets), which keeps
+	// the packer from skipping compression for a message of questions only
+	probe := base.Copy()
+	probe.Answer = []dns.RR{&dns.A{Hdr: dns.RR_Header{Name: ".", Rrtype: dns.TypeA, Class: 1}, A: net.IPv4(0, 0, 0, 0).To4()}}
+	if bl := packedLen(base); bl >= 0 && (bl <= S || base.Len() <= S || (packedLen(probe) >= 0 && packedLen(probe)-15 <= S)) {
 		pl := packedLen(m)
 		c.Pred(stream, "fits-size", in, pl >= 0 && pl <= S, fmt.Sprint(pl), fmt.Sprint("<= ", S), nt)
 	}
@@ -234,6 +240,34 @@ func runC09(c *Ctx) {
 		}
 		for si, sz := range sizes {
 			c09Case(c, "random", m, sz, plain && g.Plain, si%every == i%every)
+		}
+	}
+	// several questions that share a long suffix: the question section alone is over 512 octets uncompressed and under
+	// it compressed; records that are all dropped, some dropped, or none
+	for i, n := 0, c.Scale(40, 600); i < n; i++ {
+		var labels []string
+		total := 0
+		for total < 150+r.Intn(85) {
+			l := strings.Repeat(string(rune('a'+r.Intn(26))), 1+r.Intn(40))
+			labels = append(labels, l)
+			total += len(l) + 1
+		}
+		suffix := strings.Join(labels, ".") + "."
+		m := new(dns.Msg)
+		m.Response = true
+		m.Id = uint16(r.Intn(65536))
+		nq := 2 + r.Intn(3)
+		for k := 0; k < nq; k++ {
+			m.Question = append(m.Question, dns.Question{Name: fmt.Sprintf("q%d.%s", k, suffix), Qtype: dns.TypeA, Qclass: 1})
+		}
+		for k, na := 0, r.Intn(4); k < na; k++ {
+			m.Answer = append(m.Answer, &dns.A{Hdr: dns.RR_Header{Name: fmt.Sprintf("q%d.%s", k%nq, suffix), Rrtype: dns.TypeA, Class: 1, Ttl: 60}, A: net.IPv4(192, 0, 2, byte(k)).To4()})
+		}
+		if r.Chance(40) {
+			m.SetEdns0(1232, false)
+		}
+		for _, sz := range []int{0, 512, 513, 520, 600, 1232, packedLen(m) - 1, packedLen(m)} {
+			c09Case(c, "shared-questions", m, sz, false, true)
 		}
 	}
 }
